@@ -761,3 +761,5 @@ def check(src, rep, tier):
         r3_routing(r, src, model, header_e, te, alpha)
     if te is not None:
         rep.guard('C04.R3', routing)
+    from . import common as _common_flags
+    rep.guard('C04.R1', _common_flags.check_re_positional_flags, src, 'C04.R1', 'changelog', 'a heading with more key=value items than that exposes the rest as part of the last value')
